@@ -237,7 +237,6 @@ func genScenario(rt *rapid.T, i int) *Scenario {
 	}
 	// a fifth of the scenarios: the upstreams' replies have NO body (Content-Length: 0 / a bolt response without content);
 	// a reply without a body has to end the exchange like any other (drawn last: the earlier draws keep their meaning)
-	// (HTTP/1 only: the rig tells a bolt upstream's reply from a reply MOSN makes by the body)
-	sc.EmptyReply = pct(rt, l("empty_reply"), 20) && sc.Proto == "Http1"
+	sc.EmptyReply = pct(rt, l("empty_reply"), 20)
 	return sc
 }
